@@ -34,7 +34,7 @@ def _is_data(t, fx):
         seen += 1
         tg = tag(r)
         if tg == 'lphi':
-            loop = fx.ex.loops.get(r[1])
+            loop = fx.deep_loops(Q).get(r[1])
             if loop is None or r[2] not in loop.init:
                 return False
             r = loop.init[r[2]]
@@ -55,7 +55,7 @@ def refusals(ctx, rule='C15-R1'):
     p = ctx.project
     f = p.func(Q, rule)
     ctx.saw(f)
-    evs = fx.own_events(Q)
+    evs = fx.deep_events(Q)
     raises = [e for e in evs if e.kind == 'raise']
     kinds = {}
     for e in raises:
@@ -72,7 +72,7 @@ def refusals(ctx, rule='C15-R1'):
             k = 'empty'
         elif tag(cond) == 'not' and tag(cond[1]) == 'cmp' and cond[1][1] == 'in' and tag(cond[1][2]) == 'lv' \
                 and tag(cond[1][3]) == 'columns' and _is_data(cond[1][3][1], fx):
-            loop = fx.ex.loops[cond[1][2][1]]
+            loop = fx.deep_loops(Q)[cond[1][2][1]]
             it = loop.iter
             req_ok = T.contains(it, lambda x: x == ('p', 'req_cols')) and tag(it) == 'mcall' and it[2] == 'items' \
                 or (tag(it) == 'phi') or it == ('p', 'req_cols') or (tag(it) == 'mcall' and it[2] == 'keys')
@@ -108,6 +108,8 @@ def refusals(ctx, rule='C15-R1'):
 
 def _coincidence(mg, fx):
     """merged = dets.merge(nodets, how='inner', on=['dt','ceilo']) for hit_type in [0, -1]."""
+    if tag(mg) == 'call' and mg[1] == ('g', 'pandas.merge') and len(mg[2]) == 2:
+        mg = ('mcall', mg[2][0], 'merge', (mg[2][1],), mg[3])
     if not (tag(mg) == 'mcall' and mg[2] == 'merge' and len(mg[3]) == 1):
         return None
     kw = dict(mg[4])
@@ -131,7 +133,7 @@ def _coincidence(mg, fx):
         conds.append(c[1])
     if sorted(conds) != ['eq', 'ne']:
         return None
-    loop = fx.ex.loops[lv[1]]
+    loop = fx.deep_loops(Q)[lv[1]]
     it = T.peel(loop.iter)
     if tag(it) in ('list', 'tuple', 'set') and sorted(x[1] for x in it[1] if T.is_const(x)) == [-1, 0] \
             and len(it[1]) == 2:
@@ -143,8 +145,8 @@ def normalisation(ctx, rule='C15-R2', rule3='C15-R3'):
     fx = effects(ctx)
     p = ctx.project
     f = p.func(Q, rule)
-    evs = fx.own_events(Q)
-    s = fx.summ[Q]
+    evs = fx.deep_events(Q)
+    s = fx.deep(Q)[1]
     # deep copy first, argument untouched (C11-R1), result is that copy
     first = [e for e in evs if e.kind in ('call', 'assign')][:1]
     ctx.check(bool(first) and first[0].kind == 'call' and call_head(first[0]) == 'copy.deepcopy'
@@ -187,8 +189,10 @@ def normalisation(ctx, rule='C15-R2', rule3='C15-R3'):
     for e in drops:
         cond = _own_condition(e, evs)
         c = e.call if e.kind == 'mutcall' else e.value
-        key = c[3][0] if c[3] else None
+        key = c[3][0] if c[3] else dict(c[4]).get('columns', dict(c[4]).get('labels'))
         axis = dict(c[4]).get('axis')
+        if not c[3] and 'columns' in dict(c[4]):
+            axis = C('columns')
         ok = cond is not None and tag(cond) == 'not' and tag(cond[1]) == 'cmp' and cond[1][1] == 'in' \
             and cond[1][2] == key and axis in (C(1), C('columns'))
         ctx.check(ok, rule3, Q, e.node, e.loc(),
